@@ -1,37 +1,84 @@
 #!/usr/bin/env python3
-"""Apply each confirmed seeded change to /repo (git apply), run the check of the property it breaks, undo it
-(git checkout -- .), and record what the check said.  Usage: run_seeds.py [--tier quick] [names...]"""
-import json, os, subprocess, sys, time
+"""Run the checks against each confirmed seeded change.
+
+Default (protocol of the brief): apply the patch to /repo (git apply), run the check of the property it breaks, undo it
+(git checkout -- .), strictly one at a time.
+--worktrees N: instead give each change its own scratch worktree of /repo under /tmp/mut (removed afterwards) and point the
+check at it with VERIF_REPO; N changes run concurrently.  The check code path is identical (it copies $VERIF_REPO's working tree).
+--groups: restrict each run to the obligation groups named in the change's meta.json ("groups") via VERIF_ONLY_GROUPS; the
+result file records that.
+Usage: run_seeds.py [--tier quick] [--worktrees N] [--groups] [names...]"""
+import json, os, subprocess, sys, time, shutil
+from concurrent.futures import ThreadPoolExecutor
 VERIF = os.path.dirname(os.path.dirname(os.path.abspath(__file__)))
-tier = "quick"
-args = [a for a in sys.argv[1:]]
-if "--tier" in args:
-    i = args.index("--tier"); tier = args[i + 1]; del args[i:i + 2]
-extra_props = {}
+args = sys.argv[1:]
+def opt(name, has_val):
+    if name in args:
+        i = args.index(name)
+        v = args[i + 1] if has_val else True
+        del args[i:i + (2 if has_val else 1)]
+        return v
+    return None
+tier = opt("--tier", True) or "quick"
+nwt = int(opt("--worktrees", True) or 0)
+use_groups = bool(opt("--groups", False))
 names = args or sorted(d for d in os.listdir(os.path.join(VERIF, "seeded")) if os.path.isdir(os.path.join(VERIF, "seeded", d)))
-out_path = os.path.join(VERIF, "seeded", "results_%s.json" % tier)
+out_path = os.path.join(VERIF, "seeded", "results_%s%s.json" % (tier, "_groups" if use_groups else ""))
 results = json.load(open(out_path)) if os.path.exists(out_path) else {}
-assert subprocess.run("git -C /repo status --porcelain -uno", shell=True, stdout=subprocess.PIPE).stdout.strip() == b"", "/repo not clean"
-for name in names:
+
+def run_check(prop, env):
+    t0 = time.time()
+    p = subprocess.run(["./check", prop, "--tier", tier], cwd=VERIF, stdout=subprocess.PIPE, stderr=subprocess.STDOUT, env=env)
+    out = p.stdout.decode(errors="replace")
+    lines = out.split("\n")
+    viol = [i for i, l in enumerate(lines) if l.startswith("VIOLATION")]
+    return {"exit": p.returncode, "violations": len(viol), "wall_s": round(time.time() - t0),
+            "first": (lines[viol[0] + 1].strip()[:300] if viol and viol[0] + 1 < len(lines) else ""),
+            "other": [l[:200] for l in lines if l.startswith(("INCONCLUSIVE", "BROKEN"))][:3],
+            "last_line": out.strip().split("\n")[-1][:300]}
+
+def one(name):
     d = os.path.join(VERIF, "seeded", name)
     meta = json.load(open(os.path.join(d, "meta.json")))
-    props = [meta["property"]] + meta.get("also_check", [])
-    rc = subprocess.run(["git", "-C", "/repo", "apply", os.path.join(d, "patch.diff")]).returncode
-    if rc != 0:
-        results[name] = {"error": "patch does not apply on current /repo HEAD"}
-        continue
-    try:
-        for prop in props:
-            t0 = time.time()
-            p = subprocess.run(["./check", prop, "--tier", tier], cwd=VERIF, stdout=subprocess.PIPE, stderr=subprocess.STDOUT)
-            out = p.stdout.decode(errors="replace")
-            viol = [l for l in out.split("\n") if l.startswith("VIOLATION")]
-            results.setdefault(name, {})[prop] = {
-                "exit": p.returncode, "violations": len(viol), "wall_s": round(time.time() - t0),
-                "first": (out.split("\n")[out.split("\n").index(viol[0]) + 1][:300] if viol and out.split("\n").index(viol[0]) + 1 < len(out.split("\n")) else ""),
-                "last_line": out.strip().split("\n")[-1][:300]}
-            print(name, prop, "exit", p.returncode, "violations", len(viol), round(time.time() - t0), "s", flush=True)
-    finally:
-        subprocess.run(["git", "-C", "/repo", "checkout", "--", "."])
-    json.dump(results, open(out_path, "w"), indent=1)
+    env = dict(os.environ)
+    if use_groups and meta.get("groups"):
+        env["VERIF_ONLY_GROUPS"] = ",".join(meta["groups"])
+    res = {"groups": meta.get("groups") if use_groups else None}
+    if nwt:
+        wt = "/tmp/mut/" + name
+        subprocess.run("git -C /repo worktree remove --force %s" % wt, shell=True, stdout=subprocess.DEVNULL, stderr=subprocess.DEVNULL)
+        os.makedirs("/tmp/mut", exist_ok=True)
+        assert subprocess.run(["git", "-C", "/repo", "worktree", "add", "-q", "--detach", wt, "HEAD"]).returncode == 0
+        try:
+            if subprocess.run(["git", "-C", wt, "apply", os.path.join(d, "patch.diff")]).returncode != 0:
+                return name, {"error": "patch does not apply"}
+            env["VERIF_REPO"] = wt
+            for prop in [meta["property"]] + meta.get("also_check", []):
+                res[prop] = run_check(prop, env)
+                print(name, prop, res[prop]["exit"], res[prop]["violations"], res[prop]["wall_s"], "s", flush=True)
+        finally:
+            subprocess.run("git -C /repo worktree remove --force %s" % wt, shell=True, stdout=subprocess.DEVNULL, stderr=subprocess.DEVNULL)
+            shutil.rmtree(wt, ignore_errors=True)
+    else:
+        assert subprocess.run("git -C /repo status --porcelain -uno", shell=True, stdout=subprocess.PIPE).stdout.strip() == b"", "/repo not clean"
+        if subprocess.run(["git", "-C", "/repo", "apply", os.path.join(d, "patch.diff")]).returncode != 0:
+            return name, {"error": "patch does not apply"}
+        try:
+            for prop in [meta["property"]] + meta.get("also_check", []):
+                res[prop] = run_check(prop, env)
+                print(name, prop, res[prop]["exit"], res[prop]["violations"], res[prop]["wall_s"], "s", flush=True)
+        finally:
+            subprocess.run(["git", "-C", "/repo", "checkout", "--", "."])
+    return name, res
+
+if nwt:
+    with ThreadPoolExecutor(nwt) as ex:
+        for name, r in ex.map(one, names):
+            results[name] = r
+            json.dump(results, open(out_path, "w"), indent=1)
+else:
+    for n in names:
+        name, r = one(n)
+        results[name] = r
+        json.dump(results, open(out_path, "w"), indent=1)
 print("done")
